@@ -63,6 +63,20 @@ type Env struct {
 	L2      sop.L2Cache
 	mu      sync.Mutex
 	nTxn    int
+	// OnRegistry, when set, is told every registry write a transaction manager makes (before it executes,
+	// After=false, and once more after it returned, After=true).
+	OnRegistry func(ev RegEvent)
+}
+
+// RegEvent is one registry write as issued by a transaction (payload copied).
+type RegEvent struct {
+	Txn     int
+	Method  string // Add Update UpdateNoLocks UpdateNoLocksFlip Remove
+	After   bool
+	Err     error
+	Handles []sop.Handle // Add/Update*: the images written
+	IDs     []sop.UUID   // Remove
+	Tables  []string
 }
 
 var (
